@@ -869,6 +869,10 @@ def check(run, project):
     discarded_generators(run, project, "Q7", modules=(PRETTY, EVENTS, "tpmstream.io.binary.unmarshal"))
     from .shared import undefined_names
     undefined_names(run, project, "Q6", (PRETTY, EVENTS, "tpmstream.io.binary.unmarshal"), what="the printer fails instead of printing")
+    # Q11: "every structure and primitive event as exactly one row" of its own: the path a row is labelled with tells a list
+    # from its elements and the elements from each other
+    from .shared import pathnode_texts_distinct
+    pathnode_texts_distinct(run, project, "Q11", "rows of a list and of its first element (or of two elements) carry the same path")
     # Q9 (= C17-M2, accessor): the value column of an attribute word is its text form, which lists a field exactly when reading
     # the field through its accessor gives a non-zero number - the accessor must give the field's bits right-aligned
     from ..report import RuleView as _RV9
